@@ -289,10 +289,54 @@ func buildSpend(r *core.Rand, wrapper int, script []byte, sh txShape, flags txsc
 }
 
 func (b *builtSpend) sigHashes() *txscript.TxSigHashes {
+	if b.fetcher == nil {
+		m := map[wire.OutPoint]*wire.TxOut{}
+		for i, in := range b.sp.tx.TxIn {
+			m[in.PreviousOutPoint] = b.sp.spent[i]
+		}
+		b.fetcher = txscript.NewMultiPrevOutFetcher(m)
+	}
 	if b.hashes == nil {
 		b.hashes = txscript.NewTxSigHashes(b.sp.tx, b.fetcher)
 	}
 	return b.hashes
+}
+
+// buildInto places `script` under `wrapper` as the output spent by input idx of an existing transaction
+// (multi-input transactions whose inputs differ in every respect); sign only after all inputs are placed.
+func buildInto(tx *wire.MsgTx, spent []*wire.TxOut, idx int, wrapper int, script []byte, amount int64,
+	flags txscript.ScriptFlags, tap *tapInfo) *builtSpend {
+
+	b := &builtSpend{wrapper: wrapper, script: script, tap: tap}
+	b.sp = &spend{flags: flags, tx: tx, idx: idx, spent: spent}
+	spent[idx] = &wire.TxOut{Value: amount, PkScript: b.lockingScript()}
+	return b
+}
+
+// lockingScript computes the scriptPubKey for the wrapper (and the tapleaf hash).
+func (b *builtSpend) lockingScript() []byte {
+	script := b.script
+	switch b.wrapper {
+	case wBare:
+		return script
+	case wP2SH:
+		return cat([]byte{0xa9, 0x14}, hash160(script), []byte{0x87})
+	case wP2WSH:
+		h := sha256.Sum256(script)
+		return cat([]byte{0, 0x20}, h[:])
+	case wP2SHP2WSH:
+		h := sha256.Sum256(script)
+		return cat([]byte{0xa9, 0x14}, hash160(cat([]byte{0, 0x20}, h[:])), []byte{0x87})
+	default:
+		leaf := txscript.NewTapLeaf(txscript.TapscriptLeafVersion(b.tap.leafVer), script)
+		b.leafHash = leaf.TapHash()
+		root := b.leafHash[:]
+		for _, sib := range b.tap.path {
+			root = tapBranch(root, sib)
+		}
+		q := txscript.ComputeTaprootOutputKey(b.tap.internal, root)
+		return cat([]byte{0x51, 0x20}, schnorr.SerializePubKey(q))
+	}
 }
 
 // digest computes the message a signature in this spend has to sign, with btcd's sighash functions.
@@ -313,7 +357,8 @@ func (b *builtSpend) digest(subscript []byte, ht byte, codeSepPos uint32) []byte
 			opts = append(opts, txscript.WithAnnex(b.tap.annex))
 		}
 		leaf := txscript.NewTapLeaf(txscript.TapscriptLeafVersion(b.tap.leafVer), b.script)
-		h, err := txscript.CalcTapscriptSignaturehash(b.sigHashes(), txscript.SigHashType(ht), b.sp.tx, b.sp.idx, b.fetcher, leaf, opts...)
+		hs := b.sigHashes()
+		h, err := txscript.CalcTapscriptSignaturehash(hs, txscript.SigHashType(ht), b.sp.tx, b.sp.idx, b.fetcher, leaf, opts...)
 		if err != nil {
 			return make([]byte, 32)
 		}
